@@ -18,6 +18,24 @@
 //                                                    n consecutive sessions on the same key material,
 //                                                    every party continuing its stream
 //
+//   C07 draws <proto> <cfg> ids=<ids> d=<D> run=<A|Bc> => <id>=<step>/<step>/…,…
+//                                                    per party and executed step (constructor first) the
+//                                                    multiset of Read-call sizes "32x3+48x2" ("0": none);
+//                                                    D = columns of the MSP of the (next) access structure
+//   C07 percpt <proto> <cfg> ids=<ids> run=<A|Bc>  => groups=<g> leaves=<k> repeats=<r<round>.<from>:<pattern>,…|->
+//                                                    per-recipient material: long leaves (byte strings of
+//                                                    ≥ 16 bytes) of the unicasts one sender produces in one
+//                                                    round; a value that occurs for two recipients (or twice
+//                                                    in one message: prefix dup:) is listed
+//   C07 leaf  <proto> <cfg> ids=<ids> changed=<c>  => leaves=<k> same=<r<round>.<b|u>:<path>,…|->
+//                                                    long leaves of the changed party's own messages whose
+//                                                    value is identical in run A and run B_c (array indices
+//                                                    kept; at most 256 listed, then more:<n>)
+//
+// Every party's stream is wrapped in a recording reader (c07obs.go): the reads are attributed to the
+// executed step through the protocol layer's per-step byte counts.  Executions of a case run
+// concurrently under a weighted semaphore; lines are emitted in a fixed order.
+//
 // Go-side oracle (!VIOLATION): a first message / nonce commitment that repeats anywhere in the
 // campaign between runs in which the sender's stream differs; a run that is not ok.
 //
@@ -38,6 +56,8 @@ import (
 	"github.com/bronlabs/bron-crypto/pkg/base/algebra"
 	"github.com/bronlabs/bron-crypto/pkg/base/curves"
 	"github.com/bronlabs/bron-crypto/pkg/mpc"
+	"github.com/bronlabs/bron-crypto/pkg/mpc/sharing/accessstructures"
+	"github.com/bronlabs/bron-crypto/pkg/mpc/sharing/vss/feldman"
 	"github.com/bronlabs/bron-crypto/pkg/mpc/zero/przs"
 	"github.com/bronlabs/bron-crypto/pkg/proofs/sigma/compiler/fischlin"
 	"github.com/bronlabs/bron-crypto/pkg/signatures/bls"
@@ -57,6 +77,8 @@ type c07Run struct {
 	joint  map[string]string
 	reads  map[ID]string // bits per executed step
 	bytes  int64         // total bytes drawn (statistics)
+	draws  c07Draws      // per party and step: sizes of the Read calls (recording readers only)
+	drawsE string        // non-empty: the recorder and the step accounting disagree
 }
 
 func c07FromNet(n *Net) *c07Run {
@@ -84,6 +106,7 @@ func c07FromNet(n *Net) *c07Run {
 			r.bytes += rd[id]
 		}
 	}
+	r.draws, r.drawsE = c07DrawsOf(n)
 	return r
 }
 
@@ -110,6 +133,8 @@ func c07ShareStr[S algebra.PrimeFieldElement[S]](xs []S) string {
 type c07Proto struct {
 	name, cfg string
 	ids       []ID // parties that own a stream, sorted
+	cols      int  // columns D of the MSP of the access structure that is dealt under (0: none)
+	weight    int  // tokens of c07Sem one execution takes (0 = 1)
 	run       func(rngs map[ID]io.Reader) *c07Run
 	// seq, when set, runs k consecutive sessions with the SAME reader objects and returns per session
 	// (first messages per party, joint nonce value)
@@ -162,28 +187,87 @@ func c07Streams(seed int64, base uint64, ids []ID, changed ID, alt uint64) (map[
 		if id == changed {
 			st = alt + uint64(i)
 		}
-		rngs[id] = NewRng(seed, st)
+		rngs[id] = &c07Rec{r: NewRng(seed, st)}
 		owner[id] = fmt.Sprintf("%d/%d", seed, st)
 	}
 	return rngs, owner
 }
 
-// c07Case runs A, A', B_c for every c (and the sequence) and emits the lines.
+// c07Sem bounds the protocol executions in flight (all cases share it): every execution takes
+// `weight` of the c07SemCap tokens (the base-OT variant of DKLs23 is two orders of magnitude slower
+// than everything else and must not run twelve-fold in parallel: the protocol layer's watchdog would
+// report `hang`).  An execution that still ends in `hang` is repeated once with all tokens held.
+const c07SemCap = 12
+
+var (
+	c07Sem   = make(chan struct{}, c07SemCap)
+	c07AcqMu sync.Mutex
+)
+
+func c07Acquire(w int) {
+	if w < 1 {
+		w = 1
+	}
+	if w > c07SemCap {
+		w = c07SemCap
+	}
+	c07AcqMu.Lock() // one acquirer at a time: partial acquisitions cannot deadlock
+	for range w {
+		c07Sem <- struct{}{}
+	}
+	c07AcqMu.Unlock()
+}
+
+func c07Release(w int) {
+	if w < 1 {
+		w = 1
+	}
+	if w > c07SemCap {
+		w = c07SemCap
+	}
+	for range w {
+		<-c07Sem
+	}
+}
+
+// c07Case runs A, A', B_c for every c (concurrently; emission order is fixed) and the sequence, and
+// emits the lines.
 func c07Case(o *jobOut, reg *c07Registry, seed int64, base uint64, p c07Proto, seqK int) {
+	c07CaseMode(o, reg, seed, base, p, seqK, false)
+}
+
+// seqOnly: only the sequence of sessions is executed (slow protocols whose paired runs are covered
+// by another configuration).
+func c07CaseMode(o *jobOut, reg *c07Registry, seed int64, base uint64, p c07Proto, seqK int, seqOnly bool) {
 	prop := "C07"
 	head := fmt.Sprintf("%s %s ids=%s", p.name, p.cfg, idsStr(p.ids))
 	const none = ID(1<<63 - 1)
-	runWith := func(changed ID, alt uint64) (*c07Run, map[ID]string) {
+	type outcome struct {
+		r     *c07Run
+		owner map[ID]string
+	}
+	once := func(changed ID, alt uint64, weight int) outcome {
+		c07Acquire(weight)
+		defer c07Release(weight)
 		rngs, owner := c07Streams(seed, base, p.ids, changed, alt)
 		var r *c07Run
 		msg := safely(func() string { r = p.run(rngs); return "" })
 		if r == nil {
 			r = &c07Run{status: "harness:" + msg, msgs: map[string][]byte{}, joint: map[string]string{}, reads: map[ID]string{}}
 		}
-		return r, owner
+		return outcome{r, owner}
+	}
+	runWith := func(changed ID, alt uint64) outcome {
+		out := once(changed, alt, p.weight)
+		if strings.Contains(out.r.status, "hang") {
+			o.Count("reruns-after-watchdog")
+			out = once(changed, alt, c07SemCap)
+		}
+		return out
 	}
 	register := func(r *c07Run, owner map[ID]string, tag string) {
-		for id, slots := range r.firstSlots() {
+		for _, id := range sortedKeys(r.firstSlots()) {
+			slots := r.firstSlots()[id]
 			own, ok := owner[id]
 			if !ok {
 				continue
@@ -199,7 +283,89 @@ func c07Case(o *jobOut, reg *c07Registry, seed int64, base uint64, p c07Proto, s
 			}
 		}
 	}
-	a, ownerA := runWith(none, 0)
+	// all executions of the case at once
+	outs := make([]outcome, 2+len(p.ids))
+	if seqOnly {
+		outs = nil
+	}
+	var seqFirsts []map[ID][]byte
+	var seqJoints []string
+	seqStatus := "ok"
+	var seqOwner map[ID]string
+	var wg sync.WaitGroup
+	for i := range outs {
+		wg.Add(1)
+		go func() {
+			defer wg.Done()
+			if i < 2 {
+				outs[i] = runWith(none, 0)
+			} else {
+				outs[i] = runWith(p.ids[i-2], base+1000+uint64(i-2)*50)
+			}
+		}()
+	}
+	doSeq := p.seq != nil && seqK > 1
+	if doSeq {
+		wg.Add(1)
+		go func() {
+			defer wg.Done()
+			for _, w := range []int{p.weight, c07SemCap} {
+				c07Acquire(w)
+				rngs, owner := c07Streams(seed, base, p.ids, none, 0)
+				seqOwner = owner
+				msg := safely(func() string { seqFirsts, seqJoints, seqStatus = p.seq(rngs, seqK); return "" })
+				c07Release(w)
+				if msg != "" {
+					seqStatus = "harness:" + msg
+				}
+				if !strings.Contains(seqStatus, "hang") {
+					break
+				}
+			}
+		}()
+	}
+	wg.Wait()
+	emitSeq := func() {
+		if !doSeq {
+			return
+		}
+		firsts, joints, status, owner := seqFirsts, seqJoints, seqStatus, seqOwner
+		o.Count("runs")
+		fr, jr := "distinct", "distinct"
+		seenF := map[string]bool{}
+		for k, fm := range firsts {
+			for _, id := range sortedKeys(fm) {
+				b := fm[id]
+				key := fmt.Sprintf("%d|%x", id, b)
+				if seenF[key] {
+					fr = "repeat"
+				}
+				seenF[key] = true
+				if k > 0 || seqOnly { // session 0 equals run A (same streams from the start)
+					if prev, rep := reg.note(append([]byte(p.name+"|"+p.cfg+"|first|"), b...), fmt.Sprintf("%s+%d", owner[id], k)); rep {
+						o.Violation(prop, fmt.Sprintf("first-message-repeat %s session=%d party=%d earlier-stream=%s", head, k, id, prev))
+					}
+				}
+			}
+		}
+		seenJ := map[string]bool{}
+		for _, j := range joints {
+			if seenJ[j] {
+				jr = "repeat"
+			}
+			seenJ[j] = true
+		}
+		if status != "ok" {
+			o.Violation(prop, fmt.Sprintf("run-not-ok %s run=seq status=%s", head, status))
+		}
+		o.Emit(prop, fmt.Sprintf("seq %s k=%d", head, len(firsts)), fmt.Sprintf("first=%s joint=%s", fr, jr))
+	}
+	if seqOnly {
+		o.Count("proto." + p.name)
+		emitSeq()
+		return
+	}
+	a, ownerA := outs[0].r, outs[0].owner
 	o.Count("runs")
 	o.Count("proto." + p.name)
 	if a.status != "ok" {
@@ -207,7 +373,7 @@ func c07Case(o *jobOut, reg *c07Registry, seed int64, base uint64, p c07Proto, s
 		return
 	}
 	register(a, ownerA, "A")
-	a2, _ := runWith(none, 0)
+	a2 := outs[1].r
 	o.Count("runs")
 	// det
 	var dm, dj []string
@@ -231,12 +397,37 @@ func c07Case(o *jobOut, reg *c07Registry, seed int64, base uint64, p c07Proto, s
 		rs = append(rs, fmt.Sprintf("%d=%s", id, a.reads[id]))
 	}
 	o.Emit(prop, "reads "+head, joinComma(rs))
-	for i := 0; i < int(a.bytes/1024)+1 && i < 1; i++ {
-		o.Count("bytes-drawn-kib." + p.name)
+	if a.bytes >= 1024 {
+		o.Count("kib-drawn-run-A." + p.name)
 	}
+	// draws / per-recipient material of one run
+	perRun := func(r *c07Run, tag string) {
+		if len(p.ids) > 0 {
+			if r.drawsE != "" {
+				o.Violation(prop, fmt.Sprintf("harness-recorder %s run=%s %s", head, tag, r.drawsE))
+			} else {
+				var ds []string
+				for _, id := range p.ids {
+					var steps []string
+					for _, st := range r.draws[id] {
+						steps = append(steps, c07StepStr(st))
+						c07AddStat("draw-calls", len(st))
+					}
+					ds = append(ds, fmt.Sprintf("%d=%s", id, strings.Join(steps, "/")))
+				}
+				o.Emit(prop, fmt.Sprintf("draws %s d=%d run=%s", head, p.cols, tag), joinComma(ds))
+			}
+		}
+		groups, leaves, reps := r.perRecipient()
+		if groups > 0 {
+			c07AddStat("per-recipient-leaves", leaves)
+			o.Emit(prop, fmt.Sprintf("percpt %s run=%s", head, tag), fmt.Sprintf("groups=%d leaves=%d repeats=%s", groups, leaves, joinComma(reps)))
+		}
+	}
+	perRun(a, "A")
 	// pairs
 	for ci, c := range p.ids {
-		b, ownerB := runWith(c, base+1000+uint64(ci)*50)
+		b, ownerB := outs[2+ci].r, outs[2+ci].owner
 		o.Count("runs")
 		o.Count("pairs")
 		register(b, ownerB, fmt.Sprintf("B%d", c))
@@ -264,46 +455,15 @@ func c07Case(o *jobOut, reg *c07Registry, seed int64, base uint64, p c07Proto, s
 			js = append(js, n+"="+flag)
 		}
 		o.Emit(prop, fmt.Sprintf("pair %s changed=%d", head, c), fmt.Sprintf("status=%s msgs=%s joint=%s", b.status, joinComma(ms), joinComma(js)))
+		if b.status == "ok" {
+			perRun(b, fmt.Sprintf("B%d", c))
+			k, same := c07SameLeaves(a, b, c)
+			c07AddStat("own-leaves-compared", k)
+			o.Emit(prop, fmt.Sprintf("leaf %s changed=%d", head, c), fmt.Sprintf("leaves=%d same=%s", k, joinComma(same)))
+		}
 	}
 	// sequence of sessions on the same key material
-	if p.seq != nil && seqK > 1 {
-		rngs, owner := c07Streams(seed, base, p.ids, none, 0)
-		var firsts []map[ID][]byte
-		var joints []string
-		status := "ok"
-		msg := safely(func() string { firsts, joints, status = p.seq(rngs, seqK); return "" })
-		if msg != "" {
-			status = "harness:" + msg
-		}
-		o.Count("runs")
-		fr, jr := "distinct", "distinct"
-		seenF := map[string]bool{}
-		for k, fm := range firsts {
-			for id, b := range fm {
-				key := fmt.Sprintf("%d|%x", id, b)
-				if seenF[key] {
-					fr = "repeat"
-				}
-				seenF[key] = true
-				if k > 0 { // session 0 equals run A (same streams from the start)
-					if prev, rep := reg.note(append([]byte(p.name+"|"+p.cfg+"|first|"), b...), fmt.Sprintf("%s+%d", owner[id], k)); rep {
-						o.Violation(prop, fmt.Sprintf("first-message-repeat %s session=%d party=%d earlier-stream=%s", head, k, id, prev))
-					}
-				}
-			}
-		}
-		seenJ := map[string]bool{}
-		for _, j := range joints {
-			if seenJ[j] {
-				jr = "repeat"
-			}
-			seenJ[j] = true
-		}
-		if status != "ok" {
-			o.Violation(prop, fmt.Sprintf("run-not-ok %s run=seq status=%s", head, status))
-		}
-		o.Emit(prop, fmt.Sprintf("seq %s k=%d", head, len(firsts)), fmt.Sprintf("first=%s joint=%s", fr, jr))
-	}
+	emitSeq()
 }
 
 // ---------------------------------------------------------------------------------------------
@@ -358,9 +518,18 @@ func c07DKGJoint[G algebra.PrimeGroupElement[G, S], S algebra.PrimeFieldElement[
 	}
 }
 
+// c07Cols: the number of columns D of the MSP the library induces for the access structure.
+func c07Cols[G algebra.PrimeGroupElement[G, S], S algebra.PrimeFieldElement[S]](group algebra.PrimeGroup[G, S], ac accessstructures.Monotone) int {
+	sch, err := feldman.NewScheme(group, ac)
+	if err != nil {
+		panic(fmt.Sprintf("c07Cols: %v", err))
+	}
+	return int(sch.MSP().D())
+}
+
 func c07Dealer[G algebra.PrimeGroupElement[G, S], S algebra.PrimeFieldElement[S]](gname string, group algebra.PrimeGroup[G, S], spec string) c07Proto {
 	ac := mustAccess(spec)
-	return c07Proto{name: "dealer", cfg: gname + ";" + spec, ids: []ID{0}, run: func(rngs map[ID]io.Reader) *c07Run {
+	return c07Proto{name: "dealer", cfg: gname + ";" + spec, ids: []ID{0}, cols: c07Cols(group, ac), run: func(rngs map[ID]io.Reader) *c07Run {
 		d := runTrustedDealer(group, ac, rngs[0])
 		r := c07FromNet(d.Net)
 		c07DKGJoint(r, accessIDs(ac), d.Shards)
@@ -371,7 +540,7 @@ func c07Dealer[G algebra.PrimeGroupElement[G, S], S algebra.PrimeFieldElement[S]
 func c07Gennaro[G algebra.PrimeGroupElement[G, S], S algebra.PrimeFieldElement[S]](seed int64, gname string, group algebra.PrimeGroup[G, S], spec string) c07Proto {
 	ac := mustAccess(spec)
 	ids := accessIDs(ac)
-	return c07Proto{name: "gennaro", cfg: gname + ";" + spec, ids: ids, run: func(rngs map[ID]io.Reader) *c07Run {
+	return c07Proto{name: "gennaro", cfg: gname + ";" + spec, ids: ids, cols: c07Cols(group, ac), run: func(rngs map[ID]io.Reader) *c07Run {
 		d := runGennaro(group, ac, dealerContexts(ids, NewRng(seed, 8)), rngs, nil, defaultCompiler)
 		r := c07FromNet(d.Net)
 		c07DKGJoint(r, ids, d.Shards)
@@ -382,7 +551,7 @@ func c07Gennaro[G algebra.PrimeGroupElement[G, S], S algebra.PrimeFieldElement[S
 func c07Canetti[G algebra.PrimeGroupElement[G, S], S algebra.PrimeFieldElement[S]](seed int64, gname string, group algebra.PrimeGroup[G, S], spec string) c07Proto {
 	ac := mustAccess(spec)
 	ids := accessIDs(ac)
-	return c07Proto{name: "canetti", cfg: gname + ";" + spec, ids: ids, run: func(rngs map[ID]io.Reader) *c07Run {
+	return c07Proto{name: "canetti", cfg: gname + ";" + spec, ids: ids, cols: c07Cols(group, ac), run: func(rngs map[ID]io.Reader) *c07Run {
 		d := runCanetti(group, ac, dealerContexts(ids, NewRng(seed, 8)), rngs, nil)
 		r := c07FromNet(d.Net)
 		c07DKGJoint(r, ids, d.Shards)
@@ -393,7 +562,7 @@ func c07Canetti[G algebra.PrimeGroupElement[G, S], S algebra.PrimeFieldElement[S
 func c07HJKY[G algebra.PrimeGroupElement[G, S], S algebra.PrimeFieldElement[S]](seed int64, gname string, group algebra.PrimeGroup[G, S], spec string) c07Proto {
 	ac := mustAccess(spec)
 	ids := accessIDs(ac)
-	return c07Proto{name: "hjky", cfg: gname + ";" + spec, ids: ids, run: func(rngs map[ID]io.Reader) *c07Run {
+	return c07Proto{name: "hjky", cfg: gname + ";" + spec, ids: ids, cols: c07Cols(group, ac), run: func(rngs map[ID]io.Reader) *c07Run {
 		h := runHJKY(group, ac, dealerContexts(ids, NewRng(seed, 8)), rngs, nil)
 		r := c07FromNet(h.Net)
 		for _, id := range ids {
@@ -418,7 +587,7 @@ func c07Redistribute[G algebra.PrimeGroupElement[G, S], S algebra.PrimeFieldElem
 	prev := accessIDs(prevAC)
 	d := runTrustedDealer(group, prevAC, NewRng(seed, 7))
 	all := sortedIDs(idSet(append(append([]ID{}, prev...), accessIDs(nextAC)...)...).List())
-	return c07Proto{name: "redistribute", cfg: gname + ";" + prevSpec + ";" + nextSpec, ids: all, run: func(rngs map[ID]io.Reader) *c07Run {
+	return c07Proto{name: "redistribute", cfg: gname + ";" + prevSpec + ";" + nextSpec, ids: all, cols: c07Cols(group, nextAC), run: func(rngs map[ID]io.Reader) *c07Run {
 		res := runRedistribute(prev, d.Shards, nextAC, dealerContexts(all, NewRng(seed, 8)), rngs, nil)
 		r := c07FromNet(res.Net)
 		c07DKGJoint(r, accessIDs(nextAC), res.Shards)
@@ -531,7 +700,11 @@ func c07DKLs23(seed int64, variant, spec string, q []ID) c07Proto {
 		}
 		return r, firsts
 	}
-	return c07Proto{name: "dkls23-" + variant, cfg: "k256;" + spec, ids: q,
+	weight := 1
+	if variant == "bbot" {
+		weight = 2 * (len(q) - 1) // 2 parties: 2, 3 parties: 4
+	}
+	return c07Proto{name: "dkls23-" + variant, cfg: "k256;" + spec, ids: q, weight: weight,
 		run: func(rngs map[ID]io.Reader) *c07Run { r, _ := one(rngs); return r },
 		seq: func(rngs map[ID]io.Reader, k int) ([]map[ID][]byte, []string, string) {
 			var fs []map[ID][]byte
@@ -621,10 +794,10 @@ func runC07(c *Ctx) {
 	reg := &c07Registry{seen: map[[32]byte]string{}}
 	seed := c.Seed
 	g := NewRng(seed, 0xC07)
-	// party identifiers: three distinct non-zero IDs, not always 1,2,3
-	pick3 := func() []ID {
+	// party identifiers: k distinct non-zero IDs, not always 1,2,3
+	pick := func(k int) []ID {
 		m := map[ID]bool{}
-		for len(m) < 3 {
+		for len(m) < k {
 			m[ID(1+g.IntN(12))] = true
 		}
 		var out []ID
@@ -639,42 +812,67 @@ func runC07(c *Ctx) {
 	add := func(base uint64, seqK int, mk func() c07Proto) {
 		jobs = append(jobs, func(o *jobOut) { c07Case(o, reg, seed, base, mk(), seqK) })
 	}
+	addSeqOnly := func(base uint64, seqK int, mk func() c07Proto) {
+		jobs = append(jobs, func(o *jobOut) { c07CaseMode(o, reg, seed, base, mk(), seqK, true) })
+	}
 	rounds := 1
 	if c.Thorough() {
 		rounds = 4
 	}
 	for it := range rounds {
 		b := uint64(10000 * (it + 1))
-		ids := pick3()
-		ids2 := pick3()
+		ids := pick(3)
+		ids4 := pick(4)
 		q := []ID{ids[0], ids[2]}
 		if it%2 == 1 {
 			q = []ID{ids[1], ids[2]}
 		}
+		all3 := ids
 		seqK := 3
-		add(b+100, 0, func() c07Proto { return c07Session(seed, ids2) })
+		// the slow ones first (the run semaphore is shared)
+		add(b+900, 0, func() c07Proto { return c07DKLs23(seed, "bbot", th(2, ids), all3) })
+		if c.Thorough() {
+			add(b+950, seqK, func() c07Proto { return c07DKLs23(seed, "bbot", th(2, ids), q) })
+		} else {
+			addSeqOnly(b+950, seqK, func() c07Proto { return c07DKLs23(seed, "bbot", th(2, ids), q) })
+		}
+		add(b+1100, seqK, func() c07Proto { return c07DKLs23(seed, "softspoken", th(2, ids), all3) })
+		add(b+1150, seqK, func() c07Proto { return c07DKLs23(seed, "softspoken", th(2, ids), q) })
+		// session setup with 2, 3, 4 and 5 parties
+		for k := 2; k <= 5; k++ {
+			sids := pick(k)
+			add(b+100+uint64(k), 0, func() c07Proto { return c07Session(seed, sids) })
+		}
 		add(b+200, 0, func() c07Proto { return c07Dealer("k256", cK256, th(2, ids)) })
 		add(b+300, 0, func() c07Proto { return c07Gennaro(seed, "k256", cK256, th(2, ids)) })
+		add(b+350, 0, func() c07Proto { return c07Gennaro(seed, "k256", cK256, th(3, ids4)) })
 		add(b+400, 0, func() c07Proto { return c07Canetti(seed, "k256", cK256, th(2, ids)) })
+		add(b+450, 0, func() c07Proto { return c07Canetti(seed, "k256", cK256, th(3, ids4)) })
 		add(b+500, 0, func() c07Proto { return c07HJKY(seed, "k256", cK256, th(2, ids)) })
+		add(b+550, 0, func() c07Proto { return c07HJKY(seed, "k256", cK256, th(3, ids4)) })
 		add(b+600, 0, func() c07Proto { return c07Redistribute(seed, "k256", cK256, th(2, ids), th(2, ids)) })
-		add(b+700, seqK, func() c07Proto { return c07Lindell22Vanilla(seed, "k256", cK256, th(2, ids), q) })
-		add(b+800, 0, func() c07Proto { return c07Lindell22BIP340(seed, th(2, ids), q) })
-		add(b+900, seqK, func() c07Proto { return c07DKLs23(seed, "bbot", th(2, ids), q) })
-		add(b+1100, seqK, func() c07Proto { return c07DKLs23(seed, "softspoken", th(2, ids), q) })
+		// redistribution to a different holder set with a newcomer and a higher threshold
+		nw := ID(40 + it)
+		next := []ID{ids[1], ids[2], nw, nw + 7}
+		add(b+650, 0, func() c07Proto { return c07Redistribute(seed, "k256", cK256, th(2, ids), th(3, next)) })
+		add(b+700, seqK, func() c07Proto { return c07Lindell22Vanilla(seed, "k256", cK256, th(2, ids), all3) })
+		add(b+750, seqK, func() c07Proto { return c07Lindell22Vanilla(seed, "k256", cK256, th(2, ids), q) })
+		add(b+800, 0, func() c07Proto { return c07Lindell22BIP340(seed, th(2, ids), all3) })
 		add(b+1200, 0, func() c07Proto { return c07Boldyreva(seed, th(2, ids), q) })
 		if c.Thorough() {
-			all3 := ids
 			add(b+1300, 0, func() c07Proto { return c07Dealer("p256", cP256, th(3, ids)) })
 			add(b+1400, 0, func() c07Proto { return c07Gennaro(seed, "p256", cP256, th(3, ids)) })
 			add(b+1500, 0, func() c07Proto { return c07Canetti(seed, "ed25519", cEd25519, th(2, ids)) })
 			add(b+1600, 0, func() c07Proto { return c07HJKY(seed, "p256", cP256, th(3, ids)) })
 			add(b+1700, seqK, func() c07Proto { return c07Lindell22Vanilla(seed, "p256", cP256, th(2, ids), all3) })
-			// redistribution to a different holder set with a newcomer
-			nw := ID(40 + it)
-			next := []ID{ids[1], ids[2], nw}
-			add(b+1800, 0, func() c07Proto { return c07Redistribute(seed, "k256", cK256, th(2, ids), th(2, next)) })
-			add(b+1900, 0, func() c07Proto { return c07DKLs23(seed, "softspoken", th(2, ids), all3) })
+			add(b+1750, 0, func() c07Proto { return c07Lindell22BIP340(seed, th(2, ids), q) })
+			// non-threshold structures (several MSP rows per holder, D ≠ t)
+			sp := []string{"un:" + idsStr(ids), "cnf:1,2|3,4|1,3", "hier:1:1,2|3:3,4,5", "bool:and(1,or(2,3),th2(4,5,6))"}[it%4]
+			add(b+1800, 0, func() c07Proto { return c07Dealer("k256", cK256, sp) })
+			add(b+1810, 0, func() c07Proto { return c07Gennaro(seed, "k256", cK256, sp) })
+			add(b+1820, 0, func() c07Proto { return c07Canetti(seed, "k256", cK256, sp) })
+			add(b+1830, 0, func() c07Proto { return c07HJKY(seed, "k256", cK256, sp) })
+			add(b+1840, 0, func() c07Proto { return c07Redistribute(seed, "k256", cK256, sp, sp) })
 		}
 	}
 	if c.Thorough() {
@@ -688,5 +886,17 @@ func runC07(c *Ctx) {
 			})
 		}
 	}
-	c07RunJobs(c, 8, jobs)
+	c07RunJobs(c, len(jobs), jobs)
+	for _, k := range sortedStrings(c07Stats) {
+		c.Stats[k] += c07Stats[k]
+	}
+}
+
+func sortedStrings(m map[string]int) []string {
+	out := make([]string, 0, len(m))
+	for k := range m {
+		out = append(out, k)
+	}
+	sort.Strings(out)
+	return out
 }
